@@ -107,6 +107,7 @@ FUZZ = {
                "snapshot": 0.3, "maxCmds": 30, "reads": 1.5, "partition": 0.5},
     "clientx": {"nodes": [1, 2, 3, 4], "voters": [1, 2, 3], "nonvoters": [], "eager": E3, "steps": 220, "crash": 0.1, "fail": 0.3, "reconfig": 0.4,
                 "snapshot": 0.3, "maxCmds": 30, "reads": 1.0, "transfer": 0.4},
+    "crashpart": {"nodes": [1, 2, 3], "voters": [1, 2, 3], "nonvoters": [], "eager": E3, "steps": 240, "crash": 0.05, "fail": 0.2, "reconfig": 0, "snapshot": 1.2, "maxCmds": 16, "crashPts": 1.2, "partition": 1.0},
     "all": {"nodes": [1, 2, 3, 4], "voters": [1, 2, 3], "nonvoters": [], "eager": E3, "steps": 220, "crash": 0.2, "fail": 0.3, "reconfig": 0.5, "snapshot": 0.8, "maxCmds": 12},
 }
 
@@ -139,7 +140,7 @@ PLANS = {
     # C10: crash at every hook point inside the handlers (image of the directory at that instant), restart on the image, rejoin
     "C10": plan(["C10_RestartOK", "C01_ElectionSafety", "C02_CommittedAgree", "C02_LeaderCompleteness", "C02_CommittedStable",
                  "C03_FsmIsCommittedPrefix", "C03_FsmNotAhead", "C04_LogMatching", "C05_TermMonotone", "C05_OneVotePerTerm"],
-                [REPL_Q2], [REPL_T2], ["G_FlushBeforeAck", "FixD13", "G_PersistVote"], sim=("core",), fuzz=("crashpt", "snap"),
+                [REPL_Q2], [REPL_T2], ["G_FlushBeforeAck", "FixD13", "G_PersistVote", "FixD7"], sim=("core",), fuzz=("crashpt", "crashpart", "snap"),
                 level="fault_enumeration", runs=(200, 2400)),
     # C15: no self-inflicted death, every task completes, shutdown completes pending tasks
     "C15": plan(["C15_NoSelfInflictedDeath", "C15_AllTasksComplete", "C15_TaskCompletesOnce"], [SNAP_Q], [SNAP_T, CONF_T], ["FixD5", "FixD11", "FixD18"], sim=("snap",),
